@@ -62,9 +62,7 @@ def classify(desc, code):
         m = desc.get("misrouted", 0)
         if m > 0 and m == desc.get("misrouted_explained_by_alloc_depth", -1):
             return "region-peers-subtrie-allocation-depth-mismatch"
-        # the two fixed scenarios: a missed cycle with every message correctly routed
-        if m == 0 and code == 22 and desc.get("scenario") == "single-region-split":
-            return "schedule-alarm-not-preempted-after-single-region-split"
+        # fixed scenario 1: a missed cycle with every message correctly routed
         if m == 0 and code == 22 and desc.get("scenario") == "individual-broader-prefix":
             return "individual-reprovide-reschedules-broader-prefix"
     return None
